@@ -165,7 +165,7 @@ func main() {
 		}
 		// malformed / wrong-length stream
 		for i := 0; i < nRepr; i++ {
-			n := id.k*2 + []int{-2, -1, 0, 1, 2, 4}[r.Intn(6)]
+			n := id.k*2 + []int{-2, -1, 0, 1, 2, 4, -2, 2}[r.Intn(8)]
 			if i%7 == 0 {
 				n = r.Intn(40)
 			}
